@@ -199,6 +199,30 @@ def set_program(ast):
     PROGRAM = ProgramIndex(ast)
 
 
+def _num(v):
+    """the f64 a value denotes, if it is a number: ints, `float:X` atoms (the f64 model) and float literals"""
+    if v[0] == "int":
+        return float(v[1])
+    if v[0] == "atom" and v[1].startswith("float:"):
+        t = v[1][6:]
+    elif v[0] == "atom" and v[1].startswith("lit:") and re.match(r"^-?\d[\d_]*(\.\d[\d_]*)?([eE][-+]?\d+)?(f32|f64)?$", v[1][4:]):
+        t = re.sub(r"(f32|f64)$", "", v[1][4:]).replace("_", "")
+    else:
+        return None
+    try:
+        return float(t)
+    except ValueError:
+        return None
+
+
+def _float_atom(x):
+    if x != x:
+        return A("float:nan")
+    if x in (float("inf"), float("-inf")):
+        return A("float:inf" if x > 0 else "float:-inf")
+    return A("float:%s" % (int(x) if x == int(x) and abs(x) < 1e15 else repr(x)))
+
+
 class AEval(dtable.Eval):
     def __init__(self, inputs=(), funcs=None, consts=None, builtins=None):
         super().__init__(list(inputs))
@@ -367,6 +391,12 @@ class AEval(dtable.Eval):
                     return UNIT
                 raise Unknown("compound assignment on non numbers")
             a, b = self.ex(e["left"], env), self.ex(e["right"], env)
+            fa, fb = (a[0] == "atom" and a[1].startswith(("float:", "lit:"))), (b[0] == "atom" and b[1].startswith(("float:", "lit:")))
+            if (fa or fb) and op in ("==", "!=", "<", "<=", ">", ">="):
+                x, y = _num(a), _num(b)
+                if x is None or y is None:
+                    raise Unknown("comparison of a float with a value that is not a number")
+                return B({"==": x == y, "!=": x != y, "<": x < y, "<=": x <= y, ">": x > y, ">=": x >= y}[op])
             if op in ("==", "!="):
                 if (a[0] == "atom" and a[1].startswith("expr:")) or (b[0] == "atom" and b[1].startswith("expr:")):
                     raise Unknown("comparison of uninterpreted values")
@@ -411,6 +441,14 @@ class AEval(dtable.Eval):
         if k == "Cast":
             v = self.ex(e["expr"], env)
             ty_ = str(e.get("ty", "")).replace(" ", "")
+            if v[0] == "atom" and v[1].startswith("float:") and re.match(r"^[ui](8|16|32|64|128|size)$", ty_) and _num(v) is not None:
+                # float -> integer `as`: truncates toward zero and saturates at the type's bounds (NaN -> 0)
+                x_ = _num(v)
+                bits = 64 if ty_.endswith("size") else int(ty_[1:])
+                lo, hi = (0, (1 << bits) - 1) if ty_[0] == "u" else (-(1 << (bits - 1)), (1 << (bits - 1)) - 1)
+                return I(0 if x_ != x_ else max(lo, min(hi, int(x_))) if abs(x_) != float("inf") else (hi if x_ > 0 else lo))
+            if v[0] == "int" and ty_ in ("f64",):
+                return _float_atom(float(v[1]))
             if v[0] == "int" and ty_ == "f32":
                 # a narrowing cast: the nearest f32 (integral counts beyond 2^24 change)
                 import struct as _st
@@ -1672,6 +1710,14 @@ class AEval(dtable.Eval):
             return C("Ok", L(*[x[2][0] for x in r[1]]))
         if r[0] in ("int",) and m in ("is_finite",) and not args:
             return B(True)
+        if r[0] == "atom" and r[1].startswith("float:") and m in ("fract", "trunc", "floor", "ceil", "abs", "round", "is_sign_negative", "is_sign_positive") and not args and _num(r) is not None \
+                and r[1][6:] not in ("inf", "-inf", "nan"):
+            import math as _m
+            x_ = _num(r)
+            if m in ("is_sign_negative", "is_sign_positive"):
+                neg = _m.copysign(1.0, x_) < 0 or r[1][6:].startswith("-")
+                return B(neg if m == "is_sign_negative" else not neg)
+            return _float_atom({"fract": x_ - _m.trunc(x_), "trunc": float(_m.trunc(x_)), "floor": float(_m.floor(x_)), "ceil": float(_m.ceil(x_)), "abs": abs(x_), "round": float(round(x_))}[m])
         if r[0] == "atom" and r[1].startswith("float:") and m in ("is_finite", "is_nan", "is_infinite") and not args:
             x = r[1][6:]
             fin = x not in ("inf", "-inf", "nan")
